@@ -7,3 +7,4 @@ open GoMail.Props.C02
 #print axioms one_field_per_header
 #print axioms format_name_roundtrip
 #print axioms address_phrase_safe
+#print axioms stored_value_decodes
